@@ -4,7 +4,7 @@ from ..common import Check
 from . import circuit_common as cc
 
 PID = "C08"
-MINE = {"arg_mutated", "reject_changed_state", "frame", "rewrite_changed_other"}
+MINE = {"arg_mutated", "reject_changed_state", "frame", "rewrite_changed_other", "read_changed_state"}
 PAIRS = {(1, 2), (1, 3), (2, 3)}
 
 
@@ -40,6 +40,108 @@ def has_reject_or_reuse(r):
     return len(subs) != len(set(subs)) or any(e[1] == "edit" for e in prog)
 
 
+def other_operations(chk, th):
+    """the operations of the property that are not construction calls: simulate / sample / analyse / map / display / tomography /
+    a + b / copy: every circuit and State passed in is snapshotted before and compared after"""
+    import random
+    import numpy as np
+    import lightworks as lw
+    from lightworks import emulator as emu, interferometers as itf, qubit, tomography as tm
+    from ..adapters import circuit as ad
+    from ..adapters import tomo as ta
+    from ..common import library_raised
+    rng = random.Random(chk.seed)
+
+    def circuits():
+        out = {}
+        c = lw.Circuit(4); c.bs(0, 1); c.ps(1, 0.3); c.bs(2, 3, reflectivity=0.4); c.bs(1, 2); c.loss(0, 0.2); c.herald(1, 3, 2)
+        out["lossy herald in!=out"] = c
+        p = lw.Circuit(5); p.bs(0, 1); p.add(qubit.CNOT_Heralded(), 1); p.ps(0, 0.7)
+        out["parent with heralded CNOT"] = p
+        g = lw.Circuit(3); g.bs(0, 2, convention="H"); g.mode_swaps({0: 1, 1: 2, 2: 0}); g.barrier([0, 2]); g.add(lw.Unitary(lw.random_unitary(2, seed=3)), 1, group=True)
+        out["groups swaps barrier"] = g
+        return out
+
+    def guarded(what, objs, states, fn):
+        before = {k: ad.snapshot(v) for k, v in objs.items()}
+        sb = [(st, st.s) for st in states]
+        chk.count(key="other:" + what)
+        try:
+            fn()
+        except Exception as e:  # noqa: BLE001
+            if not library_raised(e):
+                raise
+        for k, v in objs.items():
+            if ad.snapshot(v) != before[k]:
+                chk.violation("arg_mutated", "%s changed the circuit '%s' passed in" % (what, k), script={"operation": what, "circuit": k}, sig={"clause": "arg_mutated", "operation": what.split()[0]})
+        for st, orig in sb:
+            if st.s != orig:
+                chk.violation("arg_mutated", "%s changed a State passed in: %s -> %s" % (what, orig, st.s), script={"operation": what}, sig={"clause": "arg_mutated", "operation": what.split()[0]})
+
+    for name, c in circuits().items():
+        nin = c.input_modes
+        ins = lw.State([1] + [0] * (nin - 1)) if nin else lw.State([])
+        ins2 = lw.State(([1, 1] + [0] * nin)[:nin])
+        guarded("Simulator.simulate on " + name, {name: c}, [ins, ins2], lambda: emu.Simulator(c).simulate([ins, ins2] if ins.n_photons == ins2.n_photons else [ins]))
+        for b in ("permanent", "slos"):
+            def samp():
+                s_ = emu.Sampler(c, ins2, backend=b, source=emu.Source(brightness=0.8, purity=0.95, indistinguishability=0.9), detector=emu.Detector(efficiency=0.9, p_dark=0.01))
+                s_.probability_distribution
+                s_.sample_N_inputs(200, seed=1)
+                s_.sample()
+            guarded("Sampler(%s) distribution + sampling on %s" % (b, name), {name: c}, [ins2], samp)
+        guarded("Sampler.sample_N_outputs on " + name, {name: c}, [ins2], lambda: emu.Sampler(c, ins2).sample_N_outputs(100, seed=2, min_detection=1))
+
+        def quick():
+            q_ = emu.QuickSampler(c, ins2, photon_counting=False)
+            q_.probability_distribution
+            q_.sample_N_outputs(50, seed=3)
+            q_.sample()
+        guarded("QuickSampler on " + name, {name: c}, [ins2], quick)
+        guarded("Analyzer.analyze on " + name, {name: c}, [ins, ins2], lambda: emu.Analyzer(c).analyze(ins2, expected={ins2: ins2}))
+        for dt in ("svg", "mpl"):
+            def disp():
+                import matplotlib.pyplot as plt
+                try:
+                    lw.Display(c, display_type=dt, display_loss=True, show_parameter_values=True)
+                finally:
+                    plt.close("all")
+            guarded("Display(%s) of %s" % (dt, name), {name: c}, [], disp)
+        # a + b and copy: editing the result must not change the operands, and vice versa
+        if not c.heralds["input"]:
+            d = lw.Circuit(c.n_modes); d.bs(0, 1); d.ps(0, 1.1)
+            tot = [None]
+
+            def plus_then_edit():
+                tot[0] = c + d
+                tot[0].ps(0, 0.5); tot[0].compress_mode_swaps(); tot[0].remove_non_adjacent_bs(); tot[0].unpack_groups()
+            guarded("a + b then edits of the sum, " + name, {name: c, "d": d}, [], plus_then_edit)
+        cp = [None]
+
+        def copy_then_edit():
+            cp[0] = c.copy()
+            cp[0].bs(0, 1, loss=0.1); cp[0].unpack_groups(); cp[0].compress_mode_swaps(); cp[0].remove_non_adjacent_bs()
+            if cp[0].n_modes - len(cp[0].heralds["input"]) >= 1:
+                cp[0].herald(0, 0) if 0 not in cp[0].heralds["input"] else None
+        guarded("copy() then edits of the copy, " + name, {name: c}, [], copy_then_edit)
+    # lossless circuits: Reck mapping, with and without error model
+    for name, c in (("CNOT_Heralded", qubit.CNOT_Heralded()), ("herald in!=out lossless", None), ("unitary 5", lw.Unitary(lw.random_unitary(5, seed=11)))):
+        if c is None:
+            c = lw.Circuit(4); c.bs(0, 1); c.bs(2, 3); c.ps(1, 0.4); c.bs(1, 2); c.herald(1, 0, 3); c.herald(0, 2)
+        guarded("Reck.map of " + name, {name: c}, [], lambda: itf.Reck().map(c))
+        em = itf.ErrorModel(); em.loss = itf.dists.TopHat(0, 0.1); em.bs_reflectivity = itf.dists.Gaussian(0.5, 0.02, min_value=0.4, max_value=0.6)
+        guarded("Reck(error model).map of " + name, {name: c}, [], lambda: itf.Reck(em).map(c, seed=5))
+    # tomography: the base circuit
+    for name, gs, nq in (("1 qubit S.H", [("H", 0), ("S", 0)], 1), ("2 qubits CNOT", [("H", 0), ("CNOT", 1)], 2)):
+        base = ta.build_base(gs, nq, "heralded" if nq == 2 else "ps")
+        ex = ta.Experiment(chk.seed)
+        guarded("StateTomography of " + name, {name: base}, [], lambda: tm.StateTomography(nq, base, ex.state).process())
+        if nq == 1 or th:
+            guarded("LIProcessTomography of " + name, {name: base}, [], lambda: tm.LIProcessTomography(nq, base, ex.process).process())
+            guarded("GateFidelity of " + name, {name: base}, [], lambda: tm.GateFidelity(nq, base, ex.process).process(np.eye(2 ** nq)))
+    chk.add_phase("operations other than construction calls: arguments snapshotted around simulate / sample / analyse / map / display / tomography / + / copy")
+
+
 def run(tier):
     chk = Check(PID, tier)
     chk.rule = ("cases = programs with object reuse (same sub-circuit added several times / to several parents / edited afterwards) and "
@@ -57,6 +159,7 @@ def run(tier):
                   {"scenario": "tmpl", "numeric": True, "pnu": 3, "tmpl_loss": True}, nontrivial_fn=has_reject_or_reuse)
     cc.dump_phase(chk, PID, "single_rejects", config("single_rejects"), ["InputModesInv"], PROPS, MINE, 1.0 if th else 0.25, 1200,
                   {"scenario": "single", "numeric": False}, keep=lambda t: '"rej"' in t, nontrivial_fn=has_reject_or_reuse)
+    other_operations(chk, th)
     cc.script_phase(chk, PID, "findings", cc.load_corpus(PID), MINE)
     cc.repo_tests_phase(chk, PID, MINE, ["tests/qubit", "tests/interferometers"] + (["tests/sdk", "tests/tomography", "tests/emulator/simulator_test.py"] if th else []))
     for prof in ("wiring", "rewrites"):
